@@ -51,7 +51,7 @@ def run(check, an: Analysis):
     allowed = rules.private_closure(an, TASK, {'__init__', '__close__', 'cancel'}) \
         | {wfn.name}
     for fn, stmt, target, recvs in rules.attribute_stores(an, '_result', TASK):
-        ok = (fn.cls is not None and fn.cls.qn == TASK and fn.name in allowed) or fn is wfn
+        ok = (rules.owned_by(an, fn, TASK) and fn.name in allowed) or fn is wfn
         check.instance('X', 'writer:%s' % short(fn.qn), ok,
                        '%s:%d' % (fn.module.relpath, stmt.lineno),
                        'Task._result written by %s' % short(fn.qn), nontrivial=False)
